@@ -81,6 +81,10 @@ type Contract struct {
 	Inline       bool   // callers execute the body instead of using the contract (small private helpers)
 	Opts         map[string]string
 	AtRelease    []GhostUpdate // ghost assignments performed right before every monitor release in this function
+	AtLock       []*Clause     // assumed right after every monitor Lock in this function: what the caller's own earlier operations guarantee (e.g. it still holds what it acquired); listed as assumptions
+	AtUnlock     []*Clause     // action specification: two-state predicates (old = start of the critical section) asserted at every monitor release in this function
+	LockIs       map[string]*SExpr // parameter name -> spec expression X.f: the *sync.Mutex parameter is the mutex field f of X
+	AfterCall    map[string][]GhostUpdate // callee name -> ghost assignments performed right after calls to it (`result` = its result)
 	Props        []string
 	File         string
 	Line         int
@@ -107,6 +111,7 @@ type CondDecl struct {
 
 type Guarded struct {
 	Type, Field, MuType, MuField string
+	Via                          string // ghost field of Type pointing to the object that owns the mutex (`guarded T.f by U.mu via g`)
 }
 
 type Monitor struct {
@@ -148,7 +153,7 @@ var clauseKW = map[string]bool{"arith": true, "ghost": true, "pure": true, "opaq
 	"requires": true, "ensures": true, "ensures_panic": true, "modifies": true, "loop": true, "invariant": true,
 	"use": true, "guarded": true, "monitor": true, "typeinv": true, "maypanic": true, "nopanic": true, "trusted": true,
 	"purevar": true, "cover": true, "cases": true, "assumption": true, "property": true, "atomic": true, "inline": true,
-	"havoc": true, "ghostfield": true, "opt": true, "end": true, "opaquediv": true, "reveal": true, "auto": true, "table": true, "exit": true, "cond": true, "assume": true, "atrelease": true, "blocking": true, "index": true}
+	"havoc": true, "ghostfield": true, "opt": true, "end": true, "opaquediv": true, "reveal": true, "auto": true, "table": true, "exit": true, "cond": true, "assume": true, "atrelease": true, "blocking": true, "index": true, "atunlock": true, "atlock": true, "lockis": true, "aftercall": true}
 
 type rawLine struct {
 	text string
@@ -575,15 +580,19 @@ func (cs *ContractSet) Load(path string, commentOnly bool) error {
 		case "guarded":
 			// guarded T.f by T.mu
 			f := strings.Fields(rest)
-			if len(f) != 3 || f[1] != "by" {
-				return fail(l, "guarded T.f by T.mu")
+			if !(len(f) == 3 || (len(f) == 5 && f[3] == "via")) || f[1] != "by" {
+				return fail(l, "guarded T.f by T.mu [via ghostfield]")
 			}
 			a := strings.SplitN(f[0], ".", 2)
 			b := strings.SplitN(f[2], ".", 2)
 			if len(a) != 2 || len(b) != 2 {
 				return fail(l, "guarded T.f by T.mu")
 			}
-			cs.Guarded = append(cs.Guarded, Guarded{a[0], a[1], b[0], b[1]})
+			g := Guarded{Type: a[0], Field: a[1], MuType: b[0], MuField: b[1]}
+			if len(f) == 5 {
+				g.Via = f[4]
+			}
+			cs.Guarded = append(cs.Guarded, g)
 		case "blocking":
 			cs.Blocking = append(cs.Blocking, strings.Fields(rest)...)
 		case "atrelease":
@@ -599,6 +608,57 @@ func (cs *ContractSet) Load(path string, commentOnly bool) error {
 				return fail(l, "%v", err)
 			}
 			curFn.AtRelease = append(curFn.AtRelease, GhostUpdate{Name: strings.TrimSpace(rest[:k]), E: e, Text: rest})
+		case "atunlock":
+			if curFn == nil {
+				return fail(l, "atunlock outside func")
+			}
+			c, err := mkClause(rest, path, l.line)
+			if err != nil {
+				return err
+			}
+			curFn.AtUnlock = append(curFn.AtUnlock, c)
+		case "atlock":
+			if curFn == nil {
+				return fail(l, "atlock outside func")
+			}
+			c, err := mkClause(rest, path, l.line)
+			if err != nil {
+				return err
+			}
+			curFn.AtLock = append(curFn.AtLock, c)
+			cs.AssumeCnt++
+		case "lockis":
+			// lockis mu X.f
+			f := strings.SplitN(strings.TrimSpace(rest), " ", 2)
+			if curFn == nil || len(f) != 2 {
+				return fail(l, "lockis param X.f (inside func)")
+			}
+			e, err := ParseSpec(f[1])
+			if err != nil || e.Kind != SField {
+				return fail(l, "lockis param X.f")
+			}
+			if curFn.LockIs == nil {
+				curFn.LockIs = map[string]*SExpr{}
+			}
+			curFn.LockIs[f[0]] = e
+		case "aftercall":
+			// aftercall callee lhs = expr
+			f := strings.SplitN(strings.TrimSpace(rest), " ", 2)
+			if curFn == nil || len(f) != 2 {
+				return fail(l, "aftercall callee lhs = expr (inside func)")
+			}
+			k := strings.Index(f[1], "=")
+			if k < 0 {
+				return fail(l, "aftercall callee lhs = expr")
+			}
+			e, err := ParseSpec(f[1][k+1:])
+			if err != nil {
+				return fail(l, "%v", err)
+			}
+			if curFn.AfterCall == nil {
+				curFn.AfterCall = map[string][]GhostUpdate{}
+			}
+			curFn.AfterCall[f[0]] = append(curFn.AfterCall[f[0]], GhostUpdate{Name: strings.TrimSpace(f[1][:k]), E: e, Text: rest})
 		case "cond":
 			// cond T.f uses T.mu
 			f := strings.Fields(rest)
